@@ -1,6 +1,7 @@
 import Cppcheck.Proofs.MatchEquiv
 import Cppcheck.Props.C33Interp
 import Cppcheck.Gen.Reserved
+import Cppcheck.Proofs.Lexer
 /-
 C05 — property theorems (part 1: renaming; part 2 (lexer layout) below).
 
@@ -109,5 +110,100 @@ example : ¬ Compat (fun s => if s = "x".toList then "foo".toList else s) (patLi
     [exTok "x" .eVariable 1 true] := by decide
 example : sem (parse "foo".toList) ([exTok "x" .eVariable 1 true].map (mapTok fun s => if s = "x".toList then "foo".toList else s)) 0
     ≠ sem (parse "foo".toList) [exTok "x" .eVariable 1 true] 0 := by decide
+
+
+/-! ## Part 2 — simplecpp's lexer and layout
+
+`Cppcheck.Lexer` models `simplecpp::TokenList::readfile` (`lexRaw`), `combineOperators` (`combine`) and
+`removeComments`; `tokens = removeComments ∘ combine ∘ lexRaw` is the token stream the preprocessor starts from.
+A source text is described as a sequence of lexical elements (`Elem`: white space, newline, `//` and `/* */`
+comments, words, operator bytes, quoted literals); `renderE` prints it, `placeE` is its position function.
+
+* `lexRaw_of_layout`  : for EVERY well-formed element sequence `readfile` returns exactly the token elements, at
+                        the positions `placeE` predicts — so white space, blank lines and comments between tokens
+                        influence the raw tokens only through the positions (induction over the sequence).
+* `combine_relocation`: `combineOperators` commutes with every relocation of the tokens that keeps "same line"
+                        and, on one line, "next column" (the only facts it reads of positions), for token lists of
+                        any length (induction over its loop).
+* `lexer_layout`      : tokens (edit src) = (tokens src).map shiftLoc  for layout edits between tokens. -/
+
+open Cppcheck.Lexer
+
+/-- **readfile on a layout**: raw tokens (comments included) of a well-formed element sequence -/
+theorem lexRaw_of_layout (es : List Elem) (h : elemsOK es = true) :
+    lexRaw (renderE es) = some (placeE 1 1 es) :=
+  lexRaw_render es h
+
+theorem tokens_of_layout (es : List Elem) (h : elemsOK es = true) :
+    tokens (renderE es) = some (removeComments (combine (placeE 1 1 es))) := by
+  simp [tokens, lexAll, lexRaw_render es h]
+
+/-- **combineOperators is equivariant** under relocations `φ` of the tokens that keep
+    "same line" between all token positions and "next column" between the one-character operator tokens of a line
+    (checked by the executable `presB`), when three directly following `.` tokens share a line. -/
+theorem combine_relocation (φ : Nat × Nat → Nat × Nat) (ts : List RTok)
+    (hφ : presB φ (ts.map RTok.pos) (opPositions ts) = true) (hd : dotsOKB ts = true) :
+    combine (ts.map (reloc φ)) = (combine ts).map (reloc φ) :=
+  combine_reloc (presB_spec φ _ _ hφ) ts (allIn_self ts) (opIn_self ts) (dotsOKB_spec ts hd)
+
+/-- **lexer_layout**: `es'` is a layout edit of `es` — the same token elements (comments included) in the same order,
+    white space and newlines changed so that every token moves to `φ` of its old position.  Then the token stream
+    of the edited text is the relocated token stream of the original text.
+    (Gaps may open or close anywhere except between two operator bytes: `a=b` ↦ `a = b` is covered, `+ =` ↦ `+=` is
+    excluded by `presB`.) -/
+theorem lexer_layout (es es' : List Elem) (φ : Nat × Nat → Nat × Nat)
+    (h : elemsOK es = true) (h' : elemsOK es' = true)
+    (hrel : placeE 1 1 es' = (placeE 1 1 es).map (reloc φ))
+    (hφ : presB φ ((placeE 1 1 es).map RTok.pos) (opPositions (placeE 1 1 es)) = true)
+    (hd : dotsOKB (placeE 1 1 es) = true) :
+    tokens (renderE es') = (tokens (renderE es)).map (List.map (reloc φ)) := by
+  rw [tokens_of_layout es h, tokens_of_layout es' h', hrel, combine_relocation φ _ hφ hd, removeComments_reloc]
+  rfl
+
+/-- a per-line shift (insert blank / comment-only lines, re-indent whole lines) keeps what `combineOperators` reads -/
+theorem pres_lineShift (g a : Nat → Nat) (hg : ∀ x y, g x = g y → x = y) (P Q : Nat × Nat → Prop) :
+    Pres (fun p => (g p.1, p.2 + a p.1)) P Q := by
+  constructor
+  · intro p q _ _
+    exact ⟨fun e => hg _ _ e, fun e => by simp only [e]⟩
+  · intro p q _ _ hl
+    simp only [hl]
+    omega
+
+/-- `lexer_layout` for per-line shifts: no hypothesis on the positions is left -/
+theorem lexer_layout_lineShift (es es' : List Elem) (g a : Nat → Nat) (hg : ∀ x y, g x = g y → x = y)
+    (h : elemsOK es = true) (h' : elemsOK es' = true)
+    (hrel : placeE 1 1 es' = (placeE 1 1 es).map (reloc fun p => (g p.1, p.2 + a p.1)))
+    (hd : dotsOKB (placeE 1 1 es) = true) :
+    tokens (renderE es') = (tokens (renderE es)).map (List.map (reloc fun p => (g p.1, p.2 + a p.1))) := by
+  rw [tokens_of_layout es h, tokens_of_layout es' h', hrel,
+    combine_reloc (pres_lineShift g a hg _ _) _ (allIn_self _) (opIn_self _) (dotsOKB_spec _ hd), removeComments_reloc]
+  rfl
+
+/-- the "executable scope" stack of `combineOperators` never holds `true`: the look-back at a `{` skips `)` too,
+    so `prev->op == ')'` cannot hold afterwards (the `&=` special case is therefore always active) -/
+theorem executable_scope_probe_dead (prev : List RTok) : scopeProbe prev = false := scopeProbe_false prev
+
+/-! hypotheses are satisfiable, the statement is about real merges -/
+
+def exSrc : List Elem :=
+  [.word "x".toList, .op '>', .op '>', .op '=', .word "1".toList, .op '.', .word "5e".toList, .op '+', .word "3".toList,
+   .op ';', .lcom "c".toList, .nl, .word "p".toList, .op '-', .op '>', .word "q".toList, .op ';']
+/-- the same tokens: re-indented, a blank line inserted, gaps opened around names and `;` -/
+def exSrc' : List Elem :=
+  [.ws ' ', .word "x".toList, .ws '\t', .op '>', .op '>', .op '=', .ws ' ', .word "1".toList, .op '.', .word "5e".toList,
+   .op '+', .word "3".toList, .op ';', .ws ' ', .lcom "c".toList, .nl, .nl, .ws ' ', .word "p".toList, .op '-', .op '>', .word "q".toList, .ws ' ', .op ';']
+def exTbl : List ((Nat × Nat) × (Nat × Nat)) :=
+  [((1,1),(1,2)), ((1,2),(1,4)), ((1,3),(1,5)), ((1,4),(1,6)), ((1,5),(1,8)), ((1,6),(1,9)), ((1,7),(1,10)), ((1,9),(1,12)),
+   ((1,10),(1,13)), ((1,11),(1,14)), ((1,12),(1,16)), ((2,1),(3,2)), ((2,2),(3,3)), ((2,3),(3,4)), ((2,4),(3,5)), ((2,5),(3,7))]
+
+example : elemsOK exSrc = true ∧ elemsOK exSrc' = true := by decide
+example : (placeE 1 1 exSrc).map RTok.pos = exTbl.map (·.1) ∧ (placeE 1 1 exSrc').map RTok.pos = exTbl.map (·.2) := by decide
+example : presB (tableMap exTbl) (exTbl.map (·.1)) [(1,2), (1,3), (1,4), (1,6), (1,9), (1,11), (2,2), (2,3), (2,5)] = true := by decide
+example : dotsOKB (placeE 1 1 exSrc) = true := by decide
+example : ((tokens (renderE exSrc)).getD []).map (·.str) =
+    ["x", ">>=", "1.5e+3", ";", "p", "->", "q", ";"].map String.toList := by decide
+-- gluing / separating two operator bytes is not a layout edit: the hypothesis fails (and the tokens do change)
+example : presB (tableMap [((1, 1), (1, 1)), ((1, 3), (1, 2))]) [(1, 1), (1, 3)] [(1, 1), (1, 3)] = false := by decide
 
 end Cppcheck.C05
